@@ -57,7 +57,7 @@ theorem C08_escape_loops_total (s : Bytes) :
   ⟨escapeWith_eq_spec _ _, escapeWith_eq_spec _ _⟩
 
 /-- No chunk handed to the output handler is empty (`debug_assert!(!chunk.is_empty())`,
-streaming_sink.rs:107/112). -/
+streaming_sink.rs:104/109). -/
 theorem C08_escape_chunks_nonempty (s : Bytes) :
     (∃ chunks, escapeBodyTextChunks s = .ok chunks ∧ ∀ c ∈ chunks, c ≠ []) ∧
     (∃ chunks, escapeDoubleQuotesOnlyChunks s = .ok chunks ∧ ∀ c ∈ chunks, c ≠ []) := by
@@ -114,7 +114,7 @@ theorem C08_attr_value_no_quote (v out : Bytes) (h : escapeDoubleQuotesOnly v = 
   exact not_mem_escapeSpec side_attr_avoids_quote v
 
 /-- `&` is deliberately not escaped in attribute values ("The value may have HTML/XML entities",
-element.rs:212), so decoding `&quot;` gives back `v` only up to the `&quot;` that `v` already
+element.rs:214), so decoding `&quot;` gives back `v` only up to the `&quot;` that `v` already
 contained. Universally: escaping is invisible to the decoder — the parser sees in the written value
 exactly the entities that the caller put into `v`, plus `v`'s own `"` bytes. -/
 theorem C08_attr_value_transparent (v out : Bytes) (h : escapeDoubleQuotesOnly v = some out) :
@@ -148,7 +148,7 @@ example : escapeDoubleQuotesOnly [97, 34, 38, 34] = some [97, 38, 113, 117, 111,
 
 /-! ## C08_comment -/
 
-/-- Acceptance as coded (comment.rs:54): `set_text` succeeds in a UTF-8 document iff the text
+/-- Acceptance as coded (comment.rs:50): `set_text` succeeds in a UTF-8 document iff the text
 contains neither `-->` nor `--!>` and starts with neither `>` nor `->`. -/
 theorem C08_comment_accept_iff (c : Comment) (t : Bytes) :
     (c.setText Codec.utf8 t).2 = .ok () ↔
